@@ -54,7 +54,7 @@ def rows_of(mem, n):
 def gfx(x, p):
     nrows = p['rows']
     mem = x.bytearray('mem', 64 * nrows)
-    g = hx.bare(Gfx, _data=mem, _version=8)
+    g = hx.made(Gfx, mem)
     lines = list(g.to_lines())
     x.check('one line per 64 bytes', len(lines) == nrows)
     ref_lines = [F.gfx_row(list(r)) for r in rows_of(list(mem), 64)]
@@ -77,7 +77,7 @@ def plain(x, p):
     width = cls.HEX_LINE_LENGTH_BYTES
     nrows = p['rows']
     mem = x.bytearray('mem', width * nrows)
-    s = hx.bare(cls, _data=mem, _version=8, _gfx=None)
+    s = hx.made(cls, mem)
     lines = list(s.to_lines())
     x.check('row count', len(lines) == nrows)
     x.check('128 bytes per row', width == 128)
@@ -100,7 +100,7 @@ def sfx(x, p):
     else:
         mem = hx.snap(bytearray(4352))
         mem = bytearray_like(x, mem, ids)
-    s = hx.bare(Sfx, _data=mem, _version=8)
+    s = hx.made(Sfx, mem)
     lines = list(s.to_lines())
     x.check('64 sfx rows', len(lines) == 64)
     for i in ids:
@@ -132,7 +132,7 @@ def bytearray_like(x, mem, ids):
 def music(x, p):
     n = p['patterns']
     mem = x.bytearray('mem', 4 * n)
-    m = hx.bare(Music, _data=mem, _version=8)
+    m = hx.made(Music, mem)
     lines = list(m.to_lines())
     x.check('one row per pattern', len(lines) == n)
     for k in range(n):
